@@ -78,6 +78,17 @@ int main() {
                 std::cout << "info " << (info == 0 ? 0 : 1) << "\n";
                 if (info == 0) std::cout << "D " << vstr(D) << "\nL " << mstr(L) << "\nx " << vstr(x) << "\n";
             }
+            else if (c == "ldl.densem") {
+                // multi-column right-hand side through the public solve() and solveInPlace()
+                long n = t.nat(); long up = t.nat(); long k = t.nat();
+                DMat A = t.mat(n, n);
+                DMat B = t.mat(n, k);
+                DMat X, Y = B; int info;
+                if (up == 0) { dense::LDLTNoPivot<DMat, Eigen::Lower> f(A); info = (int) f.info(); if (info == 0) { X = f.solve(B); f.solveInPlace(Y); } }
+                else { dense::LDLTNoPivot<DMat, Eigen::Upper> f(A); info = (int) f.info(); if (info == 0) { X = f.solve(B); f.solveInPlace(Y); } }
+                std::cout << "info " << (info == 0 ? 0 : 1) << "\n";
+                if (info == 0) std::cout << "X " << mstr(X) << "\nXin " << mstr(Y) << "\n";
+            }
             else if (c == "util.transpose") {
                 RawS a = raw(t);
                 SMat A = sparse_of(a, false);
